@@ -3,7 +3,7 @@ M = lambda n: "(*" + P + "PID)." + n
 # environment of the turn-level scenarios: the outgoing Tell is a recorder, the harness itself runs the turns
 TURN_SUB = {M("Tell"): P + "vC16_tell", M("submitSupervision"): P + "vC16_supervision",
             "(*" + P + "dispatcher).schedule": P + "vC16_noSchedule", "(*" + P + "worker).reschedule": P + "vC16_noReschedule"}
-TURN_OPTS = {"substitute": TURN_SUB, "unwind": 6}
+TURN_OPTS = {"substitute": TURN_SUB, "unwind": 6, "feas_from_iter": 1000, "select_precise": True}
 CHECK = {
     "id": "C16",
     "packages": ["./actor"],
@@ -12,8 +12,8 @@ CHECK = {
     "entries": [
         {"fn": P + "vC16_completeVsCancel", "replay": "model-only", "opts": {"rounds": 3, "unwind_mode": "assume", "feasibility": False}},
         {"fn": P + "vC16_sequential", "opts": {"unwind": 6}},
-        {"fn": P + "vC16_mixedModes", "replay": "model-only", "cases": {"order": list(range(12))}, "opts": TURN_OPTS},
-        {"fn": P + "vC16_retune", "replay": "model-only", "cases": {"toggle": [0, 1, 2, 3], "first": [0, 1]}, "opts": TURN_OPTS},
+        {"fn": P + "vC16_mixedModes", "replay": "model-only", "cases": {"modes": [0, 1, 2, 3], "order": list(range(12))}, "opts": TURN_OPTS},
+        {"fn": P + "vC16_retune", "replay": "model-only", "opts": TURN_OPTS},
     ],
     "opts": {"unwind": 4},
     "explanation": "requestState.setCallback/complete/stopTimeoutIfSet, PID.registerRequestState/deregisterRequestState/completeRequest/cancelInFlightRequests with the real internal/xsync.Map: sequential bookkeeping against counters, and completeRequest (on the turn) racing cancelInFlightRequests (stop path on another goroutine) under solver-chosen interleavings.",
